@@ -34,9 +34,11 @@ PROFILE = {
     'weights': {'crashcycle': 8, 'crashrestart': 3, 'down': 4, 'up': 2,
                 'reboot': 2, 'rm': 3, 'prio': 3, 'app': 12, 'cycle': 3,
                 'adv_ret': 3, 'state': 2, 'rmsrvrace': 3, 'shrink': 4, 'allocscrash': 4, 'cellrm': 2, 'cellev': 2, 'reparent': 1,
-                'cellrmcrash': 3, 'rmbucket': 1, 'rmbucketcrash': 3, 'badparentcrash': 3},
+                'cellrmcrash': 3, 'rmbucket': 1, 'rmbucketcrash': 3, 'badparentcrash': 3,
+                'rmsrvcrashrestart': 3},
     'force': ['crashcycle', 'down', 'rmsrvrace', 'shrink', 'allocscrash',
-              'cellrmcrash', 'rmbucketcrash', 'badparentcrash'],
+              'cellrmcrash', 'rmbucketcrash', 'badparentcrash',
+              'rmsrvcrashrestart'],
     'after_shrink': ['crashcycle'],
     'extra_ops': ['crashcycle', 'crashrestart'],
     'pre': (3, 10),
